@@ -495,7 +495,7 @@ def run_impl(cases):
 
 # ------------------------------------------------------------------ judges
 
-FINDING_OF_REGION = [('asyncVsTop', 'callableAsyncVsAny')]     # the one region left after the repairs F1-F5 (Spec/CallableRegions.lean)
+FINDING_OF_REGION = [('asyncVsTop', 'callableAsyncVsAny')]     # repaired by 514cbd1: the region is empty while Gen.Callable.coroOtherTopTest holds; no open finding carries this id any more, so a case that falls into it again is a violation
 
 
 def _common(case, impl, model):
